@@ -143,8 +143,9 @@ void tsmCase(long kk, uint64_t seed, bool th, Result& res) {
 void periodicCase(long kk, uint64_t seed, bool th, Result& res) {
     using namespace TbfAlgorithmUtils;
     vh::Rng r(vh::mix(seed ^ 0xC05B, uint64_t(kk) * 64 + ORDER * 2 + VH_REALF));
-    const long H = r.range(2, th ? 4 : 3);
-    const long extra = r.range(-1, th ? 2 : 1);
+    const bool singleLeaf = ((kk / 10) % 3 == 1);   // a single-leaf tree with extraLevels -1: the 27 nearest images through P2P alone, the leaf being its own periodic neighbour
+    const long H = singleLeaf ? 1 : r.range(2, th ? 4 : 3);
+    const long extra = singleLeaf ? -1 : r.range(-1, th ? 2 : 1);
     auto geo = tbx::genGeo<Real, 3>(r, H, true, int(r.below(3)));
     const Cfg cfg(H, geo.width, geo.center);
     const auto parts = genCharged<Real>(r, cfg, int(r.below(2)), r.range(30, th ? 150 : 80), int(r.below(3)), Real(double(geo.width[0]) * 1e-3));
